@@ -21,6 +21,9 @@ use std::sync::Arc;
 use std::sync::atomic::{AtomicU64, Ordering};
 use std::task::{Context, Poll};
 use tokio::io::{AsyncRead, AsyncWrite};
+#[cfg(repe_verif)]
+use crate::verif_seam::tokio_net::{TcpListener, TcpStream, ToSocketAddrs};
+#[cfg(not(repe_verif))]
 use tokio::net::{TcpListener, TcpStream, ToSocketAddrs};
 use tokio::sync::mpsc;
 use tokio::sync::mpsc::error::TrySendError;
@@ -1575,6 +1578,10 @@ async fn spawn_off_reader(
     request: Message,
     notify: bool,
 ) -> bool {
+    // Verification build: the handler runs on a simulated thread instead of
+    // tokio's blocking pool.
+    #[cfg(repe_verif)]
+    use crate::verif_seam::tokio_shim as tokio;
     let permit = match offreader_sem {
         Some(sem) => match Arc::clone(sem).try_acquire_owned() {
             Ok(permit) => Some(permit),
@@ -1645,6 +1652,8 @@ async fn spawn_off_reader(
             stamp_response_query(&mut response, Cow::Owned(request.query));
             // Best-effort: the writer may already be gone if the
             // connection closed while this handler ran.
+            #[cfg(repe_verif)]
+            crate::verif_seam::block_until(|| outbound_tx.capacity() > 0 || outbound_tx.is_closed());
             let _ = outbound_tx.blocking_send(response);
         }
     });
